@@ -51,7 +51,15 @@ def gen(rng, count, tier):
                                                                 for i in range(rng.choice([1, 2, 4]))], 'get_timeout': 20, 'no_join': True})
         if calls and calls[-1].get('expect_exc') and len([c for c in calls if 'n' in c]) == 1:
             calls.append({'kind': 'map', 'n': 9, 'input': 'list', 'elem': 'scalar', 'params': {'chunk_size': 2}, 'base': 5000})
-        scens.append({'id': f'o{k}', 'pool': pool, 'calls': calls, 'budget': 60, 'behaviour': {'task': [{'worker': 0, 'do': 'sleep', 's': 0.03}]}})
+        beh = {'task': [{'worker': 0, 'do': 'sleep', 's': 0.03}]}
+        if k % 5 == 4 and nj >= 2:
+            # apply tasks that are all STILL RUNNING (none has completed) when the first map call starts: its chunks are
+            # numbered from zero all the same
+            na = rng.choice([a for a in (1, 2, 3, 5) if a % nj != 0] or [1])
+            calls.insert(0, {'kind': 'apply_batch', 'jobs': [{'id': i, 'args': [700 + i], 'cbs': [False, False]} for i in range(na)],
+                             'fire_and_forget': True})
+            beh['task'] += [{'at': 700 + i, 'do': 'sleep', 's': 1.2} for i in range(na)]
+        scens.append({'id': f'o{k}', 'pool': pool, 'calls': calls, 'budget': 60, 'behaviour': beh})
     return scens
 
 
